@@ -33,6 +33,14 @@ Checks (one small `def` each, so that each has its own soundness lemma in `Proof
 * K11 (C06)     a constructor (`create`, `iterCtor`) that returns a handle delivers it as the sole owner (count 1) of a
                 fresh allocation that shows exactly the header and the elements handed in, in order; it allocates exactly
                 once and destroys none of the values handed in
+* K12 (C04)     the count read INSIDE a borrow callback (`withCb`, all five APIs; scripts without `replaceWith` / `swapWith`)
+                is the number of owners before the call plus the clones the callback has made so far: the borrow itself
+                is not counted
+* K13 (C03/C10) `ThinArc::with_arc_mut`: `Arc::get_mut` on the lent Arc is granted iff the allocation the transient
+                refers to AT THAT MOMENT (after the clones / replacements / swaps the callback has made) has exactly one
+                owner; afterwards every slot stands on the block the script left it on — in particular the lending
+                ThinArc points at the replacement (also when the script ended in a panic), swapped slots hold what
+                they received
 -/
 namespace M1
 namespace Mon
@@ -55,6 +63,15 @@ structure SlotObs where
   vals : Option Dig       -- the digest; `none` = `!` (no such block; never happens on a reachable state)
 deriving Repr, DecidableEq, Inhabited
 
+/-- one token of the `;`-separated `out=` field of a callback op (`runCb` appends one per executed action) -/
+inductive CbTok
+  | cnt (n : Nat)     -- `cnt=<n>`
+  | val               -- `val=<digest>`
+  | cloned | skip | mutSome | mutNone | replaced | swapped
+  | other             -- anything else
+  | cntBad            -- `cnt=a|b|…` with disagreeing accessors (never produced by the model)
+deriving Repr, DecidableEq, Inhabited
+
 /-- one observation line, structured -/
 structure Obs where
   panicked : Bool                 -- status starts with "panic"
@@ -63,6 +80,7 @@ structure Obs where
   valOut : Bool                   -- the `out=` field is not `val=?` (`unwrap_or_clone`: a value was handed out)
   evs : List Event                -- the events of this op
   slots : List (Nat × SlotObs)    -- probe AFTER the op
+  cbToks : List CbTok := []       -- for callback ops: the tokens of the `out=` field
 deriving Repr, Inhabited
 
 /-- the same observation with another list of events -/
@@ -115,6 +133,71 @@ def verdictOf (op : Op) (o : Out) : Option Bool := verdictOfOut op o.out
 /-- the `out=` field is not `val=?`, the answer of an `unwrap_or_clone` / `into_inner` that found no value -/
 def valShown (out : String) : Bool := !(out.toList == ['v', 'a', 'l', '=', '?'])
 
+/-- the tokens `runCb` appends to its `out` string, one per executed action: the same recursion as `runCb`
+(`Model/Ops.lean`) with the string replaced by a list (`Proofs/MonitorCb.lean`, `runCb_out`: `runCb`'s `out` is the
+concatenation of strings that render exactly these tokens) -/
+def cbToksOf (api : CbApi) (src : Nat) : List CbAct → State → HV → List CbTok
+  | [], _, _ => []
+  | a :: rest, s, t =>
+    match a with
+    | .cnt => .cnt (loadCount s.mem t.blk) :: cbToksOf api src rest s t
+    | .read => .val :: cbToksOf api src rest s t
+    | .panic => []
+    | .cloneTo k =>
+        match lookup s k with
+        | some _ => .skip :: cbToksOf api src rest s t
+        | none =>
+          match cloneHandle s.mem t with
+          | none => .skip :: cbToksOf api src rest s t
+          | some (m, c) =>
+            .cloned :: cbToksOf api src rest (s.put m k (if api = .thinWithArcMut then ThinArc.of_arc c else c)) t
+    | .cloneArcTo k =>
+        match lookup s k with
+        | some _ => .skip :: cbToksOf api src rest s t
+        | none =>
+          if api = .rawOffset then
+            .cloned :: cbToksOf api src rest (s.put (OffsetArc.clone_arc s.mem t).1 k (OffsetArc.clone_arc s.mem t).2) t
+          else .skip :: cbToksOf api src rest s t
+    | .getMutWrite v =>
+        if api = .thinWithArcMut then
+          if Arc.is_unique s.mem t then
+            .mutSome :: cbToksOf api src rest ⟨writeVal s.mem t.blk v, s.slots⟩ t
+          else .mutNone :: cbToksOf api src rest s t
+        else .skip :: cbToksOf api src rest s t
+    | .replaceWith k =>
+        if api = .thinWithArcMut ∧ k ≠ src then
+          match lookup s k with
+          | some h2 =>
+            if h2.kind = .thin then
+              .replaced :: cbToksOf api src rest
+                ((s.del (Arc.drop s.mem t) k).set (Arc.drop s.mem t) src (ThinArc.of_arc (ThinArc.thick s.mem h2)))
+                (ThinArc.thick s.mem h2)
+            else .skip :: cbToksOf api src rest s t
+          | none => .skip :: cbToksOf api src rest s t
+        else .skip :: cbToksOf api src rest s t
+    | .swapWith k =>
+        if api = .thinWithArcMut ∧ k ≠ src then
+          match lookup s k with
+          | some h2 =>
+            if h2.kind = .thin then
+              .swapped :: cbToksOf api src rest
+                ((s.set s.mem k (ThinArc.of_arc t)).set s.mem src (ThinArc.of_arc (ThinArc.thick s.mem h2)))
+                (ThinArc.thick s.mem h2)
+            else .skip :: cbToksOf api src rest s t
+          | none => .skip :: cbToksOf api src rest s t
+        else .skip :: cbToksOf api src rest s t
+
+/-- the callback tokens of `op` run in `s0` (`[]` for other ops and for `bad-op`) -/
+def cbToksFor (s0 : State) : Op → List CbTok
+  | .withCb src api script =>
+    match lookup s0 src with
+    | some h =>
+      match transientOf s0.mem api h with
+      | some t => cbToksOf api src script s0 t
+      | none => []
+    | none => []
+  | _ => []
+
 /-- the observation the model produces for `op` in state `s0` -/
 def observe (s0 : State) (op : Op) : Obs :=
   let r := step s0 op
@@ -123,7 +206,8 @@ def observe (s0 : State) (op : Op) : Obs :=
     verdict := verdictOf op r.2
     valOut := valShown r.2.out
     evs := r.1.mem.log.drop s0.mem.log.length
-    slots := observeSlots r.1 }
+    slots := observeSlots r.1
+    cbToks := cbToksFor s0 op }
 
 /-! ## the monitor -/
 
@@ -171,6 +255,10 @@ inductive Fail
   | ctorShared (tag : String) (slot blk : Nat)                         -- K11
   | ctorContents (tag : String) (slot : Nat)                           -- K11
   | ctorEvents (tag : String) (slot : Nat)                             -- K11
+  | cbCount (tag : String) (slot got want : Nat)                       -- K12
+  | cbCountSplit (tag : String) (slot : Nat)                           -- K12
+  | cbMut (tag : String) (slot : Nat) (granted : Bool) (blk owners : Nat)   -- K13
+  | cbPosition (tag : String) (slot want : Nat) (got : Option Nat)     -- K13
 deriving Repr, DecidableEq, Inhabited
 
 def Fail.tag : Fail → String
@@ -179,7 +267,7 @@ def Fail.tag : Fail → String
   | .dataAddrDiffer t .. | .unionChanged t .. | .cowGone t .. | .cowMoved t .. | .cowKept t .. | .cowVisible t ..
   | .cowLost t .. | .unwrapEvents t .. | .unwrapOwners t .. | .thinChanged t .. | .thinRefusal t ..
   | .uninitDrop t .. | .assumeInitChanged t .. | .ctorGone t .. | .ctorShared t .. | .ctorContents t ..
-  | .ctorEvents t .. => t
+  | .ctorEvents t .. | .cbCount t .. | .cbCountSplit t .. | .cbMut t .. | .cbPosition t .. => t
 
 def Fail.msg : Fail → String
   | .countMismatch _ i b n k => s!"slot s{i} reports count {n} but {k} owning handle(s) refer to b{b}"
@@ -209,6 +297,10 @@ def Fail.msg : Fail → String
   | .ctorShared _ i b => s!"the constructor for s{i} did not deliver the sole owner (count 1) of a fresh allocation (b{b})"
   | .ctorContents _ i => s!"the handle the constructor put in s{i} does not show exactly the header / elements handed in, in order"
   | .ctorEvents _ i => s!"the constructor for s{i} destroyed a value handed in, or did not allocate exactly once (the new block)"
+  | .cbCount _ i got want => s!"count read inside the callback lent by s{i} is {got} while {want} owning handle(s) exist (the borrow must not change the count)"
+  | .cbCountSplit _ i => s!"the count accessors read inside the callback lent by s{i} disagree"
+  | .cbMut _ i g b k => s!"get_mut inside the with_arc_mut callback on s{i} answered {if g then "some" else "none"} while {k} owning handle(s) refer to b{b}"
+  | .cbPosition _ i b got => s!"after with_arc_mut, slot s{i} should stand on b{b} but {match got with | some g => s!"stands on b{g}" | none => "is gone"}"
 
 /-! ### K1 -/
 
@@ -562,6 +654,106 @@ def checkK11 (pre : List (Nat × SlotObs)) (op : Op) (o : Obs) : List Fail :=
         (if o.evs.countP (isDropOf ids) == 0 && o.evs.countP isAllocEv == 1 && o.evs.countP (isAllocOf q.blk) == 1
          then [] else [.ctorEvents "C06" dst])
 
+/-! ### K12 (C04): counts read inside a borrow callback -/
+
+def isReplSwap : CbAct → Bool
+  | .replaceWith _ | .swapWith _ => true
+  | _ => false
+
+/-- walk the tokens: `n` = owners before the call + clones made so far -/
+def k12Walk (tags : List String) (src : Nat) : Nat → List CbTok → List Fail
+  | _, [] => []
+  | n, tk :: r =>
+    match tk with
+    | .cloned => k12Walk tags src (n + 1) r
+    | .cnt m => if m == n then k12Walk tags src n r else tags.map fun t => Fail.cbCount t src m n
+    | .cntBad => tags.map fun t => Fail.cbCountSplit t src
+    | _ => k12Walk tags src n r
+
+def k12Tags : CbApi → List String
+  | .rawOffset => ["C04", "C11"]
+  | _ => ["C04"]
+
+def checkK12 (pre : List (Nat × SlotObs)) (op : Op) (o : Obs) : List Fail :=
+  match op with
+  | .withCb src api script =>
+    if o.badOp || script.any isReplSwap then [] else
+    match lookupO pre src with
+    | some p => k12Walk (k12Tags api) src (ownersO pre p.blk) o.cbToks
+    | none => []
+  | _ => []
+
+/-! ### K13 (C03 / C10): `ThinArc::with_arc_mut`
+
+The monitor replays the script on a virtual slot table (slot ↦ block, from the probe before the op), driven by the
+TOKENS the implementation printed (`cloned` / `skip` / `replaced` / `swapped` say what happened), and tracks the block the
+transient refers to. -/
+
+abbrev VS := List (Nat × Nat)
+
+def vOwners (vs : VS) (b : Nat) : Nat := vs.countP (fun e => e.2 == b)
+def vLookup (vs : VS) (i : Nat) : Option Nat := (vs.find? (·.1 == i)).map (·.2)
+def vSet (vs : VS) (i b : Nat) : VS := vs.map fun e => if e.1 == i then (i, b) else e
+def vDel (vs : VS) (i : Nat) : VS := vs.filter (·.1 != i)
+
+/-- the virtual table of a probe -/
+def vOf (sl : List (Nat × SlotObs)) : VS := sl.map fun e => (e.1, e.2.blk)
+
+/-- one action with the token it produced; `cur` = the block the transient refers to -/
+def k13Step (src : Nat) (a : CbAct) (tk : CbTok) (cur : Nat) (vs : VS) : Except Fail (Nat × VS) :=
+  match tk with
+  | .cloned =>
+    match a with
+    | .cloneTo k | .cloneArcTo k => .ok (cur, (k, cur) :: vs)
+    | _ => .ok (cur, vs)
+  | .replaced =>
+    match a with
+    | .replaceWith k =>
+      match vLookup vs k with
+      | some nb => .ok (nb, vSet (vDel vs k) src nb)   -- the old transient is dropped, slot k's handle is now the lender's
+      | none => .ok (cur, vs)
+    | _ => .ok (cur, vs)
+  | .swapped =>
+    match a with
+    | .swapWith k =>
+      match vLookup vs k with
+      | some nb => .ok (nb, vSet (vSet vs k cur) src nb)   -- slot k now holds what the lender held
+      | none => .ok (cur, vs)
+    | _ => .ok (cur, vs)
+  | .mutSome => if vOwners vs cur == 1 then .ok (cur, vs) else .error (.cbMut "C03" src true cur (vOwners vs cur))
+  | .mutNone => if vOwners vs cur == 1 then .error (.cbMut "C03" src false cur (vOwners vs cur)) else .ok (cur, vs)
+  | _ => .ok (cur, vs)
+
+/-- actions and tokens together (the script may have ended early in a panic: fewer tokens than actions) -/
+def k13Walk (src : Nat) : List CbAct → List CbTok → Nat → VS → Except Fail (Nat × VS)
+  | a :: as, tk :: tks, cur, vs =>
+    match k13Step src a tk cur vs with
+    | .ok r => k13Walk src as tks r.1 r.2
+    | .error f => .error f
+  | _, _, cur, vs => .ok (cur, vs)
+
+/-- slot `i` of the probe after the op stands on `b` -/
+def k13Pos (post : List (Nat × SlotObs)) (e : Nat × Nat) : Option Fail :=
+  if (lookupO post e.1).map (·.blk) == some e.2 then none
+  else some (.cbPosition "C10" e.1 e.2 ((lookupO post e.1).map (·.blk)))
+
+def isThinWithArcMut : CbApi → Bool
+  | .thinWithArcMut => true
+  | _ => false
+
+def checkK13 (pre : List (Nat × SlotObs)) (op : Op) (o : Obs) : List Fail :=
+  match op with
+  | .withCb src api script =>
+    if isThinWithArcMut api && !o.badOp then
+      match lookupO pre src with
+      | some p =>
+        match k13Walk src script o.cbToks p.blk (vOf pre) with
+        | .error f => [f]
+        | .ok r => r.2.filterMap (k13Pos o.slots)
+      | none => []
+    else []
+  | _ => []
+
 /-! ### one observation -/
 
 /-- the op-independent checks K1 K2 K3 K5 (also run for driver-level ops that are not an `Op`) -/
@@ -575,7 +767,8 @@ def checkObsOnly (st : MSt) (o : Obs) : MSt × List Fail :=
 def checkOp (st : MSt) (op : Op) (o : Obs) : MSt × List Fail :=
   let r := checkObsOnly st o
   (r.1, r.2 ++ checkK4 st.pre op o ++ checkK6 st.pre op o ++ checkK7 st.pre op o ++ checkK8 st.pre op o ++
-    checkK9 st.pre op o ++ checkK10 st.pre op o ++ checkK11 st.pre op o)
+    checkK9 st.pre op o ++ checkK10 st.pre op o ++ checkK11 st.pre op o ++ checkK12 st.pre op o ++
+    checkK13 st.pre op o)
 
 def checkAll (st : MSt) : List (Op × Obs) → List Fail
   | [] => []
